@@ -7,11 +7,17 @@ package dastard
 // PacketProducer; real Sample(), PrepareChannels(), PrepareRun(), readerMainLoop(), getNextBlock()
 // and distributeData(); the harness plays the core loop. The output is a function of the script
 // (which packets arrive in which read tick), not of timing.
+// Ring family: the producer is a real AbacoRing over a real shared-memory ring buffer; the harness
+// plays the card, writing each tick's burst (every packet padded to the 8192-byte slot) into the ring
+// before the reader loop's ReadAllPackets call reaches the real AbacoRing.ReadAllPackets.
 
 import (
 	"bytes"
 	"fmt"
+	"os"
+	"path/filepath"
 	"sort"
+	"strings"
 	"sync"
 	"testing"
 	"time"
@@ -19,6 +25,7 @@ import (
 	"github.com/usnistgov/dastard/internal/vexp"
 	"github.com/usnistgov/dastard/internal/vhook"
 	"github.com/usnistgov/dastard/packets"
+	"github.com/usnistgov/dastard/ringbuffer"
 )
 
 type v03Group struct {
@@ -30,6 +37,7 @@ type v03Layout struct {
 	groups []v03Group
 	frames int  // frames per packet
 	wide   bool // int32 payload
+	ring   bool // the packets travel through a shared-memory ring buffer and the real AbacoRing
 }
 
 const v03Base = 1000 // sequence number of the first sampled packet
@@ -39,6 +47,12 @@ func v03Value(ch, sn, frame int) int { return (ch*131 + (sn-v03Base)*17 + frame*
 
 // v03Packet builds one packet through the real encoder and decoder (as if it had arrived by UDP).
 func v03Packet(l *v03Layout, g v03Group, sn int) *packets.Packet {
+	q, _ := v03PacketRaw(l, g, sn)
+	return q
+}
+
+// v03PacketRaw also returns the encoded bytes.
+func v03PacketRaw(l *v03Layout, g v03Group, sn int) (*packets.Packet, []byte) {
 	p := packets.NewPacket(10, 20, uint32(sn-1), g.first) // NewData increments the sequence number
 	dims := []int16{int16(g.nchan)}
 	n := g.nchan * l.frames
@@ -65,29 +79,149 @@ func v03Packet(l *v03Layout, g v03Group, sn int) *packets.Packet {
 	}
 	// 1e6 frames per second: every group measures the same sample rate
 	p.SetTimestamp(&packets.PacketTimestamp{T: uint64(1000000 + (sn-v03Base)*l.frames*1000), Rate: 1e9})
-	q, err := packets.ReadPacket(bytes.NewReader(p.Bytes()))
+	raw := p.Bytes()
+	q, err := packets.ReadPacket(bytes.NewReader(raw))
 	if err != nil {
 		panic("harness packet does not decode: " + err.Error())
 	}
 	if int(q.SequenceNumber()) != sn {
 		panic(fmt.Sprintf("harness packet has sequence number %d, wanted %d", q.SequenceNumber(), sn))
 	}
-	return q
+	if len(raw) != q.Length() {
+		panic(fmt.Sprintf("harness packet is %d bytes long but reports Length()=%d", len(raw), q.Length()))
+	}
+	return q, raw
+}
+
+const v03Slot = 8192 // ring slot size = the largest legal packet
+
+// totals of this worker, for the evidence
+var v03RingExecs, v03RingFull, v03RingShort, v03RingWraps int64
+
+// v03Ring is a shared-memory ring buffer with the harness on the writing side (the card) and the
+// real AbacoRing on the reading side.
+type v03Ring struct {
+	rb     *ringbuffer.RingBuffer
+	dev    *AbacoRing
+	log    []string
+	bad    string // first difference between what was written and what AbacoRing.ReadAllPackets returned
+	nfull  int    // packets written that fill a slot exactly
+	nshort int    // packets written that are padded to the slot
+}
+
+// v03RingNumber is unique per worker process: negative ring numbers are for testing.
+func v03RingNumber() int {
+	shard := 0
+	fmt.Sscanf(os.Getenv("VERIF_SHARD"), "%d/", &shard)
+	return -(7000000000 + (os.Getpid()%10000000)*100 + shard%100)
+}
+
+// v03RingSweep removes ring files that a crashed worker of an earlier run left behind.
+func v03RingSweep() {
+	old, _ := filepath.Glob("/dev/shm/xdma-7*_c2h_0_*")
+	for _, f := range old {
+		if st, err := os.Stat(f); err == nil && time.Since(st.ModTime()) > 15*time.Minute {
+			os.Remove(f)
+		}
+	}
+}
+
+func v03NewRing(slots int) *v03Ring {
+	num := v03RingNumber()
+	rb, err := ringbuffer.NewRingBuffer(fmt.Sprintf("xdma%d_c2h_0_buffer", num), fmt.Sprintf("xdma%d_c2h_0_description", num))
+	if err == nil {
+		rb.Unlink() // leftovers of a crashed execution of this very process
+		err = rb.Create(slots * v03Slot)
+	}
+	if err != nil {
+		panic("harness cannot create the shared-memory ring: " + err.Error())
+	}
+	dev, err := NewAbacoRing(num)
+	if err != nil {
+		panic("NewAbacoRing failed: " + err.Error())
+	}
+	return &v03Ring{rb: rb, dev: dev}
+}
+
+func (g *v03Ring) remove() {
+	g.dev.stop()
+	g.rb.Close()
+	g.rb.Unlink()
+}
+
+// exchange writes the burst into the ring, each packet padded to the slot size as the card does, lets
+// the real AbacoRing read, and compares what comes back with what went in.
+func (g *v03Ring) exchange(what string, want []*packets.Packet, raw [][]byte) ([]*packets.Packet, error) {
+	for _, b := range raw {
+		slot := make([]byte, (len(b)+v03Slot-1)/v03Slot*v03Slot)
+		copy(slot, b)
+		for i := len(b); i < len(slot); i++ {
+			slot[i] = 0xa5 // padding is not data
+		}
+		if len(b)%v03Slot == 0 {
+			g.nfull++
+		} else {
+			g.nshort++
+		}
+		if n, err := g.rb.Write(slot); err != nil || n != len(slot) {
+			panic(fmt.Sprintf("harness ring is too small: wrote %d of %d bytes, error %v", n, len(slot), err))
+		}
+	}
+	got, err := g.dev.ReadAllPackets()
+	id := func(ps []*packets.Packet) string {
+		var s []string
+		for _, p := range ps {
+			s = append(s, fmt.Sprintf("%d@%d(%dB)", p.SequenceNumber(), gIndex(p).Firstchan, p.Length()))
+		}
+		return "[" + strings.Join(s, " ") + "]"
+	}
+	g.log = append(g.log, fmt.Sprintf("ring %s: wrote %s, AbacoRing.ReadAllPackets returned %s err=%v", what, id(want), id(got), err))
+	if g.bad == "" && (err != nil || id(got) != id(want)) {
+		g.bad = fmt.Sprintf("%s: packets written to the ring (sequence number@first channel(length)) %s, AbacoRing.ReadAllPackets returned %s, error %v", what, id(want), id(got), err)
+	}
+	return got, err
 }
 
 // v03Producer hands out the sampled packets and then one scripted batch per ReadAllPackets call.
+// With a ring, the scripted packets are written into the shared memory at the same moments and the
+// real AbacoRing (start, discardStale, ReadAllPackets, stop) does the reading; AbacoRing.samplePackets
+// is a wall-clock polling loop around ReadAllPackets and is replaced by a single ReadAllPackets.
 type v03Producer struct {
-	mu      sync.Mutex
-	sampled []*packets.Packet
-	batches [][]*packets.Packet
-	calls   int
-	done    chan struct{} // closed when the script is exhausted and two further empty ticks were read
+	mu         sync.Mutex
+	sampled    []*packets.Packet
+	batches    [][]*packets.Packet
+	sampledRaw [][]byte
+	batchesRaw [][][]byte
+	ring       *v03Ring
+	calls      int
+	done       chan struct{} // closed when the script is exhausted and two further empty ticks were read
+	once       sync.Once
 }
 
-func (p *v03Producer) start() error        { return nil }
-func (p *v03Producer) discardStale() error { return nil }
-func (p *v03Producer) stop() error         { return nil }
+func (p *v03Producer) finish() { p.once.Do(func() { close(p.done) }) }
+
+func (p *v03Producer) start() error {
+	if p.ring != nil {
+		return p.ring.dev.start()
+	}
+	return nil
+}
+func (p *v03Producer) discardStale() error {
+	if p.ring != nil {
+		return p.ring.dev.discardStale()
+	}
+	return nil
+}
+func (p *v03Producer) stop() error {
+	if p.ring != nil {
+		return p.ring.dev.stop()
+	}
+	return nil
+}
 func (p *v03Producer) samplePackets(d time.Duration) ([]*packets.Packet, error) {
+	if p.ring != nil {
+		return p.ring.exchange("sampling", p.sampled, p.sampledRaw)
+	}
 	return p.sampled, nil
 }
 func (p *v03Producer) ReadAllPackets() ([]*packets.Packet, error) {
@@ -96,10 +230,16 @@ func (p *v03Producer) ReadAllPackets() ([]*packets.Packet, error) {
 	k := p.calls
 	p.calls++
 	if k < len(p.batches) {
+		if p.ring != nil {
+			return p.ring.exchange(fmt.Sprintf("read tick %d", k), p.batches[k], p.batchesRaw[k])
+		}
 		return p.batches[k], nil
 	}
 	if k == len(p.batches)+2 {
-		close(p.done)
+		p.finish()
+	}
+	if p.ring != nil {
+		return p.ring.exchange(fmt.Sprintf("read tick %d", k), nil, nil)
 	}
 	return nil, nil
 }
@@ -108,7 +248,7 @@ const v03NScript = 6 // scripted sequence numbers per group after sampling
 const v03NTicks = 5
 
 // one execution: choose loss pattern and batching (deviation-bounded), run the real reader loop
-func v03Run(x *vexp.X, l *v03Layout, seed int64, staggered bool) vexp.Result {
+func v03Run(x *vexp.X, l *v03Layout, seed int64, staggered bool) (res vexp.Result) {
 	ng := len(l.groups)
 	// script[g][k] = tick in which packet base+NSampled+k of group g arrives, or -1 if lost.
 	// Default environment: staggered=false: everything arrives in the first tick; staggered=true: two
@@ -150,17 +290,48 @@ func v03Run(x *vexp.X, l *v03Layout, seed int64, staggered bool) vexp.Result {
 	prod := &v03Producer{done: make(chan struct{})}
 	for _, g := range l.groups {
 		for sn := v03Base; sn < v03Base+v03NSampled; sn++ {
-			prod.sampled = append(prod.sampled, v03Packet(l, g, sn))
+			q, raw := v03PacketRaw(l, g, sn)
+			prod.sampled = append(prod.sampled, q)
+			prod.sampledRaw = append(prod.sampledRaw, raw)
 		}
 	}
+	var readerDone chan struct{} // set once the reader loop runs
+	if l.ring {
+		// N slots hold N-1 full packets; the largest burst is the whole script in one tick. The whole
+		// execution writes more than N slots, so the ring wraps.
+		prod.ring = v03NewRing(len(l.groups)*v03NScript + 2)
+		defer func() {
+			if readerDone != nil { // the reader must not touch the shared memory after it is unmapped
+				prod.finish()
+				<-readerDone
+			}
+			prod.ring.remove()
+			v03RingExecs++
+			v03RingFull += int64(prod.ring.nfull)
+			v03RingShort += int64(prod.ring.nshort)
+			if prod.ring.nfull+prod.ring.nshort > len(l.groups)*v03NScript+2 {
+				v03RingWraps++
+			}
+			for _, s := range prod.ring.log {
+				x.Logf("%s", s)
+			}
+			x.Logf("ring: %d packets of exactly one slot and %d shorter ones were written", prod.ring.nfull, prod.ring.nshort)
+			if prod.ring.bad != "" { // the root cause of whatever else went wrong downstream
+				res = vexp.Result{Violation: fmt.Sprintf("layout %s: %s; script %v", l.name, prod.ring.bad, script), Class: "ring-packets-lost-or-duplicated"}
+			}
+		}()
+	}
 	prod.batches = make([][]*packets.Packet, v03NTicks)
+	prod.batchesRaw = make([][][]byte, v03NTicks)
 	lastArrived := make([]int, ng) // last sequence number of the group that arrives at all
 	for g, grp := range l.groups {
 		lastArrived[g] = v03Base + v03NSampled - 1
 		for k, t := range script[g] {
 			if t >= 0 {
 				sn := v03Base + v03NSampled + k
-				prod.batches[t] = append(prod.batches[t], v03Packet(l, grp, sn))
+				q, raw := v03PacketRaw(l, grp, sn)
+				prod.batches[t] = append(prod.batches[t], q)
+				prod.batchesRaw[t] = append(prod.batchesRaw[t], raw)
 				lastArrived[g] = sn
 			}
 		}
@@ -186,9 +357,16 @@ func v03Run(x *vexp.X, l *v03Layout, seed int64, staggered bool) vexp.Result {
 	}()
 	// what StartRun does, with a short read period (50 ms in production) and a deep buffer so that the
 	// "no data" panic in getNextBlock stays far away (capacity x period)
+	for _, pp := range as.producers {
+		pp.discardStale()
+	}
 	as.buffersChan = make(chan AbacoBuffersType, 20000)
 	as.readPeriod = 100 * time.Microsecond
-	go as.readerMainLoop()
+	readerDone = make(chan struct{})
+	go func() {
+		defer close(readerDone)
+		as.readerMainLoop()
+	}()
 	go func() {
 		<-prod.done
 		closeIfOpen(as.abortSelf)
@@ -299,7 +477,11 @@ func TestVerifC03(t *testing.T) {
 	if r.Thorough() {
 		maxDev = 3
 	}
-	r.SetBound(fmt.Sprintf("group layouts (1-3 groups, 1-2 channels per group, 1|3 frames per packet, int16|int32 payloads), 6 sequence numbers per group after sampling, every loss pattern and every batching into 5 read ticks with at most %d deviations (a lost packet or a later tick) from each of two default arrival patterns ('everything in the first tick' and 'two packets per tick, odd groups one packet behind'), map-iteration seeds 0..2", maxDev))
+	r.SetBound(fmt.Sprintf("group layouts (1-3 groups, 1-2 channels per group, 1|3 frames per packet, int16|int32 payloads), 6 sequence numbers per group after sampling, every loss pattern and every batching into 5 read ticks with at most %d deviations (a lost packet or a later tick) from each of two default arrival patterns ('everything in the first tick' and 'two packets per tick, odd groups one packet behind'), map-iteration seeds 0..2; ring family: the same scripts with the packets written by the harness into a real shared-memory ring buffer (slots of 8192 bytes, "+
+		"every packet padded to the slot, the ring wraps during the execution) and read by the real AbacoRing (start, discardStale, ReadAllPackets, stop) as the source's producer, for the layouts "+
+		"12 channels x 339 frames int16 (packets of exactly 8192 bytes), 6 channels x 339 frames int32 (8192 bytes), 2 channels x 3 frames (68-byte packets), and groups of 12 and 1 channels x 339 frames "+
+		"(8192- and 734-byte packets interleaved in one ring); bursts of 0..6 packets per group and tick; every ReadAllPackets result also compared with the burst written", maxDev))
+	r.Note("ring family: AbacoRing.samplePackets (a wall-clock polling loop around ReadAllPackets that wants 100 packets) is replaced by one ReadAllPackets call after the harness wrote the sampled packets")
 	var layouts []v03Layout
 	for _, frames := range []int{1, 3} {
 		for _, wide := range []bool{false, true} {
@@ -312,6 +494,33 @@ func TestVerifC03(t *testing.T) {
 				layouts = append(layouts, v03Layout{name: fmt.Sprintf("groups=%v/frames=%d/int32=%v", gs, frames, wide), groups: gs, frames: frames, wide: wide})
 			}
 		}
+	}
+	// ring family: full = a group whose packets are exactly one ring slot long
+	v03RingSweep()
+	for _, rl := range []struct {
+		gs     []v03Group
+		frames int
+		wide   bool
+		full   bool
+	}{
+		{[]v03Group{{0, 12}}, 339, false, true},          // 56 + 12 x 339 x 2 = 8192 bytes: exactly one slot
+		{[]v03Group{{0, 2}}, 3, false, false},            // short packets, padded to the slot
+		{[]v03Group{{0, 12}, {12, 1}}, 339, false, true}, // slot-filling and padded packets interleaved in one ring
+		{[]v03Group{{0, 6}}, 339, true, true},            // 56 + 6 x 339 x 4 = 8192 bytes
+	} {
+		l := v03Layout{name: fmt.Sprintf("ring/groups=%v/frames=%d/int32=%v", rl.gs, rl.frames, rl.wide), groups: rl.gs, frames: rl.frames, wide: rl.wide, ring: true}
+		var lens []int
+		hasFull := false
+		for _, g := range rl.gs {
+			q := v03Packet(&l, g, v03Base)
+			lens = append(lens, q.Length())
+			hasFull = hasFull || q.Length() == v03Slot
+		}
+		if hasFull != rl.full {
+			panic(fmt.Sprintf("harness: ring layout %s has packet lengths %v, slot-filling packet expected: %v", l.name, lens, rl.full))
+		}
+		l.name += fmt.Sprintf("/bytes=%v", lens)
+		layouts = append(layouts, l)
 	}
 	for i := range layouts {
 		l := &layouts[i]
@@ -327,4 +536,8 @@ func TestVerifC03(t *testing.T) {
 			}
 		}
 	}
+	r.Count("ring_executions", v03RingExecs)
+	r.Count("ring_executions_in_which_the_ring_wrapped", v03RingWraps)
+	r.Count("ring_packets_of_exactly_one_slot_written", v03RingFull)
+	r.Count("ring_packets_shorter_than_a_slot_written", v03RingShort)
 }
